@@ -11,6 +11,12 @@
   C18.native.composition     table: the real pieces composed on live callables
   C18.native.every_call_checked  table: the verdict for one callable changes between successive calls on one environment
                              (flag set after first use, overriding check that looks at the receiver): every call is re-evaluated
+  C18.is_safe_callable.*     false_when_marked / false_when_the_invoked_method_is_marked / true_otherwise (markers of obj and of the method the
+                             call invokes: __call__, or __new__/__init__ of a class)
+  C18.ext.gettext_alias[*]   the i18n alias `_` calls the `gettext` it resolves from the context through environment.call when sandboxed;
+                             C18.scan.context_resolved_calls: no other library function calls a context-resolved value with context.call
+  C18.namespace.special_names  Namespace.__getattribute__ never answers a special name `__x__` from the template-controlled attributes
+  C18.native.context_resolved_calls / namespace_protocol / shared_bytecode_cache   native tables for the three families
 C18.call.gate quantifies over ANY environment state (unknown attributes of the environment are opaque): no memo can replace the check.
 """
 from __future__ import annotations
@@ -220,7 +226,14 @@ def replay_call_gate(w):
 # =====================================================================================================================
 class IsSafeCallable(VC):
     """"By default callables are considered safe unless decorated with unsafe.  This also recognizes the Django convention of
-    setting func.alters_data = True." """
+    setting func.alters_data = True."  `unsafe` "marks a function or method as unsafe" and the sandbox documentation says
+    "Decorate methods with unsafe to prevent calling them from templates": calling an object runs its __call__ method, calling a
+    class runs __new__ / __init__, so a marker on the method that the call invokes counts like a marker on the object.
+
+      M(x)            x.unsafe_callable or x.alters_data is present and truthy
+      invoked(obj)    obj.__new__, obj.__init__ for a class;  obj.__call__ otherwise (the bound method shows the function's markers)
+      is_safe_callable(obj)  ==  not (M(obj) or M(some invoked(obj)))
+    """
     prop = "C18"
     target = "jinja2.sandbox:SandboxedEnvironment.is_safe_callable"
 
@@ -232,22 +245,57 @@ class IsSafeCallable(VC):
         # it are uninterpreted predicates, so the contract holds for functions, methods, classes and callable instances alike
         attr_presence_spec(I, None)
 
+        def any_spec(I_, st, args, kwargs, node):
+            items = I_.iter_concrete(st, args[0], node)
+            ts = []
+            for x in items:
+                t = I_.truth_term(st, x)
+                if t is None:
+                    from pyvc.values import Unsupported
+                    raise Unsupported("any() over a value with __bool__", node)
+                ts.append(z3.BoolVal(t) if isinstance(t, bool) else t)
+            return [(st, Sym(z3.Or(*ts) if ts else z3.BoolVal(False), "bool"))]
+
+        I.specs[("fn", id(any))] = any_spec
+
     def setup(self, I, st):
+        from pyvc.ops import isinst_fn
         self.env = A.obj(st, S.SandboxedEnvironment, "env")
         self.obj = sym("obj", "obj")
+        o = self.obj.t
+        self.istype = isinst_fn(type)(o)
+        # every class has __new__ and __init__
+        st.assume(z3.Implies(self.istype, z3.And(has_fn("__new__")(o), has_fn("__init__")(o))))
         return [self.env, self.obj], {}
 
-    def marked(self):
-        o = self.obj.t
-        return z3.Or(z3.And(has_fn("unsafe_callable")(o), truthy(attr_fn("unsafe_callable")(o))),
-                     z3.And(has_fn("alters_data")(o), truthy(attr_fn("alters_data")(o))))
+    def M(self, x):
+        return z3.Or(z3.And(has_fn("unsafe_callable")(x), truthy(attr_fn("unsafe_callable")(x))),
+                     z3.And(has_fn("alters_data")(x), truthy(attr_fn("alters_data")(x))))
 
-    def p_post(self, pre, out):
+    def marked(self):
+        return self.M(self.obj.t)
+
+    def invoked_marked(self):
+        o = self.obj.t
+        return z3.If(self.istype, z3.Or(self.M(attr_fn("__new__")(o)), self.M(attr_fn("__init__")(o))),
+                     z3.And(has_fn("__call__")(o), self.M(attr_fn("__call__")(o))))
+
+    def p_marked(self, pre, out):
         if out.raised:
             return False
-        return _sbx.ret_term(out.value) == z3.Not(self.marked())
+        return z3.Implies(self.marked(), z3.Not(_sbx.ret_term(out.value)))
 
-    posts = [("false_iff_marked", p_post)]
+    def p_invoked(self, pre, out):
+        if out.raised:
+            return False
+        return z3.Implies(self.invoked_marked(), z3.Not(_sbx.ret_term(out.value)))
+
+    def p_otherwise(self, pre, out):
+        if out.raised:
+            return False
+        return z3.Implies(z3.Not(z3.Or(self.marked(), self.invoked_marked())), _sbx.ret_term(out.value))
+
+    posts = [("false_when_marked", p_marked), ("false_when_the_invoked_method_is_marked", p_invoked), ("true_otherwise", p_otherwise)]
 
     def concretize(self, model, pre, out):
         o = self.obj.t
@@ -266,7 +314,14 @@ class IsSafeCallable(VC):
                 "alters_data": (b(truthy(attr_fn("alters_data")(o))) if b(has_fn("alters_data")(o)) else None), "kind": kind,
                 # markers carried by obj.__call__ (a different object): they say nothing about obj
                 "call_marked": bool(b(has_fn("__call__")(o)) and any(
-                    b(has_fn(k)(attr_fn("__call__")(o))) and b(truthy(attr_fn(k)(attr_fn("__call__")(o)))) for k in ("unsafe_callable", "alters_data")))}
+                    b(has_fn(k)(attr_fn("__call__")(o))) and b(truthy(attr_fn(k)(attr_fn("__call__")(o)))) for k in ("unsafe_callable", "alters_data"))),
+                "init_marked": bool(kind == "class" and any(
+                    b(has_fn(k)(attr_fn(m)(o))) and b(truthy(attr_fn(k)(attr_fn(m)(o)))) for k in ("unsafe_callable", "alters_data") for m in ("__init__", "__new__")))}
+
+    def finding_key(self, res):
+        w = res.witness or {}
+        own = bool(w.get("unsafe_callable")) or bool(w.get("alters_data"))
+        return f"own markers={own}/invoked method marked={bool(w.get('call_marked') or w.get('init_marked'))}"
 
     def replay(self, w):
         return replay_is_safe_callable(w)
@@ -317,14 +372,28 @@ def replay_is_safe_callable(w):
     carriers = marked_carriers(marks)
     order = [w.get("kind", "instance")] + [k for k in carriers if k != w.get("kind", "instance")]
     probs = []
-    if w.get("call_marked") and not marks:
-        class FlaggedCall:
-            @S.unsafe
-            def __call__(self, *a, **k):
-                return 1
-        got = env.is_safe_callable(FlaggedCall())
-        if bool(got) is not True:
-            probs.append(f"is_safe_callable(instance without markers whose __call__ function is flagged) = {got}; documented default looks at the markers of the object itself: True")
+    # the inputs of hunt report C18_2: the marker sits on the method that the call invokes
+    class FlaggedCall:
+        @S.unsafe
+        def __call__(self, *a, **k):
+            return 1
+
+    class Dj:
+        def __call__(self):
+            return 1
+    Dj.__call__.alters_data = True
+
+    class FlaggedInit:
+        @S.unsafe
+        def __init__(self):
+            pass
+
+    if not any(bool(v) for v in marks.values()):
+        for desc, c in (("instance whose __call__ method is decorated with unsafe", FlaggedCall()), ("instance whose __call__ has alters_data", Dj()),
+                        ("class whose __init__ is decorated with unsafe", FlaggedInit)):
+            got = env.is_safe_callable(c)
+            if bool(got):
+                probs.append(f"is_safe_callable({desc}) = {got}: the call written in a template runs the marked method; documented: False")
     for kind in order:
         for desc, c in carriers[kind]:
             got = env.is_safe_callable(c)
@@ -677,6 +746,16 @@ def native_composition(task, tier, seed):
             ran.append("hook")
             return "ok"
 
+    class MarkedCall:  # hunt C18_2: the __call__ method itself is decorated
+        @S.unsafe
+        def __call__(self, *a, **k):
+            ran.append("markedcall")
+
+    class MarkedInit:
+        @S.unsafe
+        def __init__(self, *a, **k):
+            ran.append("markedinit")
+
     flagged_hook = Hook()
     flagged_hook.unsafe_callable = True
     import functools
@@ -693,7 +772,8 @@ def native_composition(task, tier, seed):
         env = envcls()
         ctx = env.from_string("").new_context({})
         for name, fn, safe in (("plain", plain, True), ("marked", marked, False), ("django", django, False), ("method", Obj().method, False), ("fine", Obj().fine, True),
-                               ("action", Action(), False), ("hook", flagged_hook, False), ("hook", Hook(), True), ("plain", part, False), ("fine", ok_part, True)):
+                               ("action", Action(), False), ("hook", flagged_hook, False), ("hook", Hook(), True), ("plain", part, False), ("fine", ok_part, True),
+                               ("markedcall", MarkedCall(), False), ("markedinit", MarkedInit, False)):
             del ran[:]
             want_run = safe and envcls is not Deny
             try:
@@ -709,9 +789,9 @@ def native_composition(task, tier, seed):
                 bad.append((envcls.__name__, name, list(ran), err))
     nm = "C18.native.composition"
     if bad:
-        out.append(Res(nm, "refuted", "table", 0, f"{bad[:4]}", "table", {"cases": [list(map(str, b)) for b in bad[:4]]}))
+        out.append(Res(nm, "refuted", "table", 0, f"{bad[:4]}", "table", {"cases": [list(map(str, b)) for b in bad]}))
     else:
-        out.append(Res(nm, "discharged", "table", 0, "3 environments x 10 callables (functions, methods, callable instances flagged on instance / class, partials): refused ones never ran, allowed ones ran once", "table"))
+        out.append(Res(nm, "discharged", "table", 0, "3 environments x 12 callables (functions, methods, callable instances flagged on instance / class / __call__, class with flagged __init__, partials): refused ones never ran, allowed ones ran once", "table"))
     return out
 
 
@@ -790,14 +870,342 @@ def replay_every_call(w):
     return (rs[0].status == "refuted", rs[0].detail)
 
 
+# =====================================================================================================================
+# library functions of jinja2 itself that call a value taken from the template-controlled context
+# =====================================================================================================================
+class GettextAlias(VC):
+    """ext._gettext_alias (the global `_` of the i18n extension) looks `gettext` up in the CONTEXT - a top-level {% set %} of the
+    template writes there - and calls it.  In a sandboxed environment that call must pass the same gate as a call written in the
+    template: environment.call(context, func, *args, **kwargs), never context.call directly."""
+    prop = "C18"
+    target = "jinja2.ext:_gettext_alias"
+
+    def __init__(self, sandboxed):
+        self.sandboxed = sandboxed
+        super().__init__("C18", f"C18.ext.gettext_alias[{'sandboxed' if sandboxed else 'plain'} environment]")
+
+    def configure(self, I):
+        _sbx.install_star_calls(I)
+        I.specs["Context.resolve"] = A.abstract_fn("context.resolve", returns="obj")
+        I.specs["Context.call"] = A.abstract_fn("context.call", returns="obj", raises=(("any", Exception),))
+        cls = "SandboxedEnvironment" if self.sandboxed else "Environment"
+        I.specs[f"{cls}.call"] = A.abstract_fn("environment.call", returns="obj", raises=((SecurityError if self.sandboxed else ("any", Exception)),))
+
+    def setup(self, I, st):
+        ecls = S.SandboxedEnvironment if self.sandboxed else jinja2.Environment
+        self.env = A.obj(st, ecls, "environment", fields={"sandboxed": self.sandboxed})
+        self.ctx = A.obj(st, R.Context, "context", fields={"environment": self.env})
+        self.args = A.sseq(st, "args", "obj")
+        self.kwargs = A.adict(st, "kwargs", "obj", "obj")
+        return "locals", {"__context": self.ctx, "args": self.args, "kwargs": self.kwargs}
+
+    def p_gated(self, pre, out):
+        rs, cc, ec = calls(out, "context.resolve"), calls(out, "context.call"), calls(out, "environment.call")
+        if len(rs) != 1 or rs[0].args[1:] != ("gettext",):
+            return False
+        func = rs[0].result
+        if self.sandboxed:
+            if cc or len(ec) != 1:
+                return False  # the resolved value is called without the gate
+            e, a = ec[0], ec[0].args
+            pos = a[1:]
+            shape = len(pos) == 3 and pos[0] == self.ctx and same(pos[1], func) and isinstance(pos[2], StarSeq) and pos[2].seq.arr.eq(self.args.arr)
+        else:
+            if ec or len(cc) != 1:
+                return False
+            e, a = cc[0], cc[0].args
+            pos = a[1:]
+            shape = a[0] == self.ctx and len(pos) == 2 and same(pos[0], func) and isinstance(pos[1], StarSeq) and pos[1].seq.arr.eq(self.args.arr)
+        if not shape or set(e.kwargs) != {STARKW} or e.kwargs[STARKW] != self.kwargs:
+            return False
+        if out.raised:
+            return out.value is e.result
+        return same(out.value, e.result)
+
+    posts = [("resolved_callable_goes_through_the_gate", p_gated)]
+
+    def concretize(self, model, pre, out):
+        return {"family": "gettext_alias"}
+
+    def finding_key(self, res):
+        return "gettext_alias"
+
+    def replay(self, w):
+        return replay_context_resolved_calls(w)
+
+
+def replay_context_resolved_calls(w=None):
+    """the input of hunt report C18_1: `gettext` assigned by the template, called through the alias `_`"""
+    ran = []
+
+    @S.unsafe
+    def danger(*a, **k):
+        ran.append("danger")
+        return "RAN"
+
+    class Obj:
+        def delete(self, *a):
+            ran.append("delete")
+            return "deleted"
+        delete.alters_data = True
+
+    def rejected(*a):
+        ran.append("rejected")
+        return "RAN2"
+
+    class Env(S.SandboxedEnvironment):
+        def is_safe_callable(self, obj):
+            return obj is not rejected and super().is_safe_callable(obj)
+
+    probs = []
+    for is_async in (False, True):
+        for newstyle in (None, False, True):
+            env = Env(extensions=["jinja2.ext.i18n"], enable_async=is_async)
+            if newstyle is not None:
+                env.install_null_translations(newstyle=newstyle)
+            for src in ("{% set gettext = danger %}{{ _('x') }}", "{% set gettext = obj.delete %}{{ _('all') }}", "{% set gettext = rejected %}{{ _('x') }}",
+                        "{% with gettext = danger %}{{ _('x') }}{% endwith %}"):
+                del ran[:]
+                try:
+                    r = env.from_string(src).render(danger=danger, obj=Obj(), rejected=rejected)
+                except SecurityError:
+                    r = "<SecurityError>"
+                except Exception as ex:
+                    r = f"<{type(ex).__name__}>"
+                if ran:
+                    probs.append(f"{'async' if is_async else 'sync'}, newstyle={newstyle}: {src} -> {r!r}, ran {ran}")
+            if newstyle is not None:
+                ok = env.from_string("{{ _('hello') }}").render()
+                if ok != "hello":
+                    probs.append(f"ordinary use of _ broken: {ok!r}")
+    return (bool(probs), "; ".join(probs[:3]) or "callables resolved from the context by library functions pass the sandbox gate")
+
+
+def native_context_resolved(task, tier, seed):
+    v, d = replay_context_resolved_calls({})
+    nm = "C18.native.context_resolved_calls"
+    if v:
+        return [Res(nm, "refuted", "table", 0, d, "table", {"family": "gettext_alias"})]
+    return [Res(nm, "discharged", "table", 0, "4 templates x sync/async x (no translations, old style, new style): nothing ran", "table")]
+
+
+def scan_context_calls(task, tier, seed):
+    """table (syntactic, whole package): a `<context>.call(<callee>, ...)` in library code outside runtime.py / sandbox.py whose callee
+    comes from `<context>.resolve(...)` / `<context>[...]` / `.get(...)` - i.e. from the template-controlled namespace - is dominated
+    by a `sandboxed` test that routes it to environment.call; the known sites are listed with the VC that covers them"""
+    import ast as _ast
+    import inspect as _inspect
+    import os
+    import jinja2 as _j
+    root = os.path.dirname(_inspect.getsourcefile(_j))
+    allowed = {("ext.py", "_gettext_alias"): "C18.ext.gettext_alias[*]"}
+    bad, n = [], 0
+    for fn in sorted(os.listdir(root)):
+        if not fn.endswith(".py") or fn in ("runtime.py", "sandbox.py", "compiler.py"):
+            continue
+        tree = _ast.parse(open(os.path.join(root, fn), encoding="utf-8").read())
+        for f in _ast.walk(tree):
+            if not isinstance(f, (_ast.FunctionDef, _ast.AsyncFunctionDef)):
+                continue
+            tainted = set()
+            for node in _ast.walk(f):
+                if isinstance(node, _ast.Assign) and any(isinstance(c, _ast.Call) and isinstance(c.func, _ast.Attribute) and c.func.attr in ("resolve", "resolve_or_missing", "get")
+                                                         and "context" in _ast.unparse(c.func.value).lower() for c in _ast.walk(node.value)):
+                    tainted |= {t.id for t in node.targets if isinstance(t, _ast.Name)}
+            for c in _ast.walk(f):
+                if isinstance(c, _ast.Call) and isinstance(c.func, _ast.Attribute) and c.func.attr == "call" and "context" in _ast.unparse(c.func.value).lower() and c.args:
+                    n += 1
+                    callee = c.args[0]
+                    from_ctx = (isinstance(callee, _ast.Name) and callee.id in tainted) or any(
+                        isinstance(x, _ast.Call) and isinstance(x.func, _ast.Attribute) and x.func.attr in ("resolve", "resolve_or_missing", "get") for x in _ast.walk(callee))
+                    if from_ctx and (fn, f.name) not in allowed:
+                        bad.append({"file": fn, "function": f.name, "line": c.lineno, "code": _ast.unparse(c)[:100]})
+    nm = "C18.scan.context_resolved_calls"
+    if bad:
+        return [Res(nm, "refuted", "table", 0, f"{b['file']}:{b['line']} {b['function']}: {b['code']} calls a value taken from the context without the sandbox gate", "table", b) for b in bad]
+    return [Res(nm, "discharged", "table", 0, f"{n} context.call sites in library modules; callee from the context only at {sorted(allowed)} (own VC)", "table")]
+
+
+# =====================================================================================================================
+# objects a template can build: special names are not served from template-controlled data
+# =====================================================================================================================
+class NamespaceSpecialNames(VC):
+    """utils.Namespace.__getattribute__(name): a template chooses the attribute names of a namespace (namespace(**kw),
+    {% set ns.attr = v %}).  Library code invokes protocol methods by explicit attribute lookup (obj.__html__(), obj.__html_format__(spec),
+    iterable.__aiter__() ...); a special name `__x__` is therefore never answered from the attribute dictionary."""
+    prop = "C18"
+    target = "jinja2.utils:Namespace.__getattribute__"
+    timeout_quick = 30000
+
+    def __init__(self):
+        super().__init__("C18", "C18.namespace.special_names")
+
+    def configure(self, I):
+        I.specs[("fn", id(object.__getattribute__))] = A.abstract_fn("object.__getattribute__", returns="obj", raises=(AttributeError,))
+
+    def setup(self, I, st):
+        import jinja2.utils as U
+        self.attrs = A.adict(st, "attrs", "str", "obj")
+        self.ns = st.alloc(HObj(U.Namespace, fields={"__attrs": self.attrs}, path="ns"), initial=True)
+        self.name_ = sym("name", "str")
+        return [self.ns, self.name_], {}
+
+    def p_special(self, pre, out):
+        n = self.name_.t
+        special = z3.And(z3.PrefixOf(z3.StringVal("__"), n), z3.SuffixOf(z3.StringVal("__"), n), z3.Length(n) >= 4)
+        og = calls(out, "object.__getattribute__")
+        if out.raised:
+            return out.value.cls is AttributeError or (og and out.value is og[0].result)
+        if og and same(out.value, og[0].result):
+            return True
+        # the value comes from the template-controlled dictionary
+        # (string goals are slow under load: first try the protocol names themselves, a ground query)
+        from pyvc.smt import check_sat
+        for probe in ("__html__", "__html_format__", "__aiter__", "__iter__", "__call__"):
+            if check_sat(list(out.st.pc) + [n == z3.StringVal(probe)], 5000, 0, use_cvc5=False).status == "sat":
+                return n != z3.StringVal(probe)
+        return z3.Not(special)
+
+    posts = [("never_from_the_attribute_dict", p_special)]
+
+    def concretize(self, model, pre, out):
+        from contracts._sbx import model_str, unescape_z3
+        return {"family": "namespace_protocol", "name": unescape_z3(model_str(model, self.name_.t, "__html__"))}
+
+    def finding_key(self, res):
+        return "namespace_protocol"
+
+    def replay(self, w):
+        return replay_namespace_protocol(w)
+
+
+def replay_namespace_protocol(w=None):
+    """the inputs of hunt report C18_4"""
+    ran = []
+
+    @S.unsafe
+    def danger(*a, **k):
+        ran.append(("danger", a))
+        return "RAN"
+
+    class User:
+        def delete(self):
+            ran.append(("delete",))
+            return "deleted"
+        delete.alters_data = True
+
+    srcs = ["{{ namespace(__html__=danger)|e }}", "{{ namespace(__html__=user.delete)|e }}", "{% set ns = namespace() %}{% set ns.__html__ = danger %}{{ ns|safe }}",
+            "{{ namespace(__html__=danger) }}", "{{ namespace(__html__=danger)|striptags }}", "{{ namespace(__html__=danger)|urlize }}", "{{ namespace(__html__=danger)|forceescape }}",
+            "{{ ('%s'|safe) % namespace(__html__=danger) }}", "{{ ('{0}'|safe).format(namespace(__html__=danger)) }}", "{{ ('{0:spec}'|safe).format(namespace(__html_format__=danger)) }}",
+            "{{ namespace(items=danger)|dictsort }}", "{{ namespace(items=danger)|xmlattr }}", "{% for x in namespace(__aiter__=danger) %}{% endfor %}",
+            "{% for x in namespace(__iter__=danger) %}{% endfor %}", "{{ namespace(__len__=danger)|length }}", "{{ namespace(__str__=danger)|string }}"]
+    nm = (w or {}).get("name")
+    if nm and nm.startswith("__") and nm.endswith("__") and nm.isidentifier():
+        srcs.insert(0, "{{ namespace(%s=danger)|e }}{{ namespace(%s=danger) }}" % (nm, nm))
+    probs = []
+    for kw in ({}, {"autoescape": True}, {"enable_async": True}):
+        env = S.SandboxedEnvironment(**kw)
+        for src in srcs:
+            del ran[:]
+            try:
+                r = env.from_string(src).render(danger=danger, user=User())
+            except SecurityError:
+                r = "<SecurityError>"
+            except Exception as ex:
+                r = f"<{type(ex).__name__}>"
+            if ran:
+                probs.append(f"{kw}: {src} -> {r!r}, ran {ran}")
+    return (bool(probs), "; ".join(probs[:3]) or "no protocol method lookup on a template-built namespace ran a stored callable")
+
+
+def native_namespace_protocol(task, tier, seed):
+    v, d = replay_namespace_protocol({})
+    nm = "C18.native.namespace_protocol"
+    if v:
+        return [Res(nm, "refuted", "table", 0, d, "table", {"family": "namespace_protocol"})]
+    return [Res(nm, "discharged", "table", 0, "16 templates x (plain, autoescape, async): no stored callable ran", "table")]
+
+
+# =====================================================================================================================
+# a sandboxed environment must run sandboxed code
+# =====================================================================================================================
+def native_shared_bytecode_cache(task, tier, seed):
+    """table: a SandboxedEnvironment that shares a BytecodeCache with a differently configured environment (the default
+    FileSystemBytecodeCache directory is shared by every environment of a user) still refuses unsafe callables: the code it runs
+    was generated for a sandboxed environment"""
+    import jinja2.bccache as B
+    from jinja2 import DictLoader, Environment
+
+    class MemCache(B.BytecodeCache):
+        def __init__(self):
+            self.store = {}
+
+        def load_bytecode(self, bucket):
+            if bucket.key in self.store:
+                bucket.bytecode_from_string(self.store[bucket.key])
+
+        def dump_bytecode(self, bucket):
+            self.store[bucket.key] = bucket.bytecode_to_string()
+
+    ran = []
+
+    @S.unsafe
+    def danger():
+        ran.append("danger")
+        return "RAN"
+
+    bad = []
+    for first in (Environment, S.SandboxedEnvironment):
+        cache = MemCache()
+        loader = DictLoader({"page": "{{ danger() }}"})
+        try:
+            first(loader=loader, bytecode_cache=cache).get_template("page").render(danger=lambda: "ok")
+        except SecurityError:
+            pass
+        del ran[:]
+        try:
+            r = S.SandboxedEnvironment(loader=loader, bytecode_cache=cache).get_template("page").render(danger=danger)
+        except SecurityError:
+            r = "<SecurityError>"
+        if ran:
+            bad.append(f"cache filled by {first.__name__}: the sandboxed render gave {r!r}, ran {ran}")
+    nm = "C18.native.shared_bytecode_cache"
+    if bad:
+        return [Res(nm, "refuted", "table", 0, "; ".join(bad), "table", {"family": "F19"})]
+    return [Res(nm, "discharged", "table", 0, "cache shared with a plain and with a sandboxed environment: the unsafe callable never ran", "table")]
+
+
+class F19Task(FnTask):
+    def finding_key(self, res):
+        return "F19"
+
+
+class FamilyTable(FnTask):
+    def finding_key(self, res):
+        return (res.witness or {}).get("family", "")
+
+
+class CompositionTask(FnTask):
+    def finding_key(self, res):
+        """the callables of the table that misbehave"""
+        cases = (res.witness or {}).get("cases") or []
+        return ",".join(sorted({c[1] for c in cases if len(c) > 1}))
+
+
 def replay_composition(w):
     rs = native_composition(None, "quick", 0)
     return (rs[0].status == "refuted", rs[0].detail)
 
 
 TASKS = [CallGate(), IsSafeCallable(), UnsafeDecorator(), ContextCall(),
-         FnTask("C18", "C18.native.composition", native_composition, "table", replay_composition),
-         FnTask("C18", "C18.native.every_call_checked", native_every_call_checked, "table", replay_every_call)]
+         CompositionTask("C18", "C18.native.composition", native_composition, "table", replay_composition),
+         FnTask("C18", "C18.native.every_call_checked", native_every_call_checked, "table", replay_every_call),
+         GettextAlias(True), GettextAlias(False),
+         FamilyTable("C18", "C18.native.context_resolved_calls", native_context_resolved, "table", replay_context_resolved_calls),
+         FnTask("C18", "C18.scan.context_resolved_calls", scan_context_calls, "table", replay_context_resolved_calls),
+         NamespaceSpecialNames(), FamilyTable("C18", "C18.native.namespace_protocol", native_namespace_protocol, "table", replay_namespace_protocol),
+         F19Task("C18", "C18.native.shared_bytecode_cache", native_shared_bytecode_cache, "table",
+                 lambda w: (lambda rs: (rs[0].status == "refuted", rs[0].detail))(native_shared_bytecode_cache(None, "quick", 0)))]
 
 META = {
     "level": "proof",
